@@ -452,3 +452,7 @@ def run(ctx):
     cw = cached_witness(ctx, "cancel_task", cancel_task_witness)
     r3 = [r for r in rules if r.id.endswith(".R3")] or rules
     ctx.reconcile(r3, lambda c: "cancel" in c, cw, "src/gwf/backends/local.py::Scheduler.cancel_task", "src/gwf/backends/local.py:1")
+    # "failed if ... a dependency failed": the dependencies a task has are the ones gwf submitted it with (ids, 0 included, reach the pool unchanged)
+    r7 = ctx.rule("R7", "the dependencies a task waits for are the ones it was submitted with (composition with C11.R4)")
+    from .shared import import_rules
+    import_rules(ctx, r7, "C11", only={"R4"})
